@@ -99,8 +99,9 @@ def eccentricity_derivative(
     dR_dw_2 = -1. * beta_invr * mass_1 * dU_dw_2
 
     # Correct for zero eccentricity
-    de_dt = (np.abs(denom) <= float_eps) * 0. + \
-            (np.abs(denom) > float_eps) * (e_term1 / denom) * (e_term1 * dR_dM - (dR_dw_1 + dR_dw_2))
+    # Guard the division so that e = 0 gives de/dt = 0 rather than a ZeroDivisionError (floats) or NaN (arrays).
+    denom_safe = denom + (np.abs(denom) <= float_eps) * 1.
+    de_dt = (np.abs(denom) > float_eps) * (e_term1 / denom_safe) * (e_term1 * dR_dM - (dR_dw_1 + dR_dw_2))
 
     return de_dt
 
@@ -159,7 +160,8 @@ def semia_eccen_derivatives(
     denom = orbital_motion * semi_major_axis * semi_major_axis * eccentricity
 
     # Correct for zero eccentricity
-    de_dt = (np.abs(denom) <= float_eps) * 0. + \
-            (np.abs(denom) > float_eps) * (e_term1 / denom) * (e_term1 * dR_dM - (dR_dw_1 + dR_dw_2))
+    # Guard the division so that e = 0 gives de/dt = 0 rather than a ZeroDivisionError (floats) or NaN (arrays).
+    denom_safe = denom + (np.abs(denom) <= float_eps) * 1.
+    de_dt = (np.abs(denom) > float_eps) * (e_term1 / denom_safe) * (e_term1 * dR_dM - (dR_dw_1 + dR_dw_2))
 
     return da_dt, de_dt
